@@ -1,11 +1,13 @@
 import SqlProofs.StripwsSpec
+import SqlProofs.IndentSpec
 import SqlModel.Filters.Safe
 /-!
 # SqlProofs.FilterTotal — C07 for the statement filters: domains on which nothing but `RecursionError` is raised
 
 The decidable domains are defined in `SqlModel/Filters/Safe.lean` (`FilterSafe.stripws`, `.aligned`, `.reindent`); the driver
 command `filtersafe` evaluates them.  Theorems: `stripComments_total`, `spaces_total` (no hypothesis), `stripWhitespace_total`
-(+ `stripwsParenthesis_fails`: outside the domain `_stripws_parenthesis` raises `IndexError`), `aligned_total`.
+(+ `stripwsParenthesis_fails`: outside the domain `_stripws_parenthesis` raises `IndexError`), `aligned_total`,
+`reindent_total`, and for a whole stack `runStmtObjs_total`.
 -/
 set_option linter.unusedSimpArgs false
 namespace Sql
@@ -397,5 +399,1311 @@ theorem stripwsParenthesis_fails (ks : List FNode) (h : parenCodesOK (ks.map wsC
               rw [hl] at this
               simp at this
           rw [this]
+
+/-! ## `AlignedIndentFilter` -/
+
+theorem alignedL_iff : ∀ (l : List FNode), alignedL l = true ↔ ∀ x ∈ l, aligned x = true
+  | [] => by simp [alignedL]
+  | k :: l => by
+    simp only [alignedL, Bool.and_eq_true, List.mem_cons, forall_eq_or_imp, alignedL_iff l]
+
+theorem aligned_tok (tt : TType) (v : Text) : aligned (.tok tt v) = true := by simp [aligned]
+
+/-- elements of the `_split_kwds` output: the old children and inserted leaves -/
+theorem mem_splitKwdsGo (isSplit : FNode → Bool) (emit : List FNode → FNode → List FNode)
+    (hemit : ∀ done k x, x ∈ emit done k → x ∈ done ∨ x = k ∨ x.isGroup = false) :
+    ∀ (rest : List FNode) (d : Nat) (done : List FNode) (x : FNode), x ∈ splitKwdsGo isSplit emit d done rest →
+      x ∈ done ∨ x ∈ rest ∨ x.isGroup = false
+  | [], d, done, x, h => by simp only [splitKwdsGo, List.mem_reverse] at h; exact Or.inl h
+  | k :: rest, d, done, x, h => by
+    have lift : (x ∈ k :: done ∨ x ∈ rest ∨ x.isGroup = false) → (x ∈ done ∨ x ∈ k :: rest ∨ x.isGroup = false) := by
+      rintro (h1 | h1 | h1)
+      · rcases List.mem_cons.mp h1 with rfl | h2
+        · exact Or.inr (Or.inl List.mem_cons_self)
+        · exact Or.inl h2
+      · exact Or.inr (Or.inl (List.mem_cons_of_mem _ h1))
+      · exact Or.inr (Or.inr h1)
+    unfold splitKwdsGo at h
+    split at h
+    · exact lift (mem_splitKwdsGo isSplit emit hemit rest _ _ x h)
+    · split at h
+      · exact lift (mem_splitKwdsGo isSplit emit hemit rest _ _ x h)
+      · split at h
+        · exact lift (mem_splitKwdsGo isSplit emit hemit rest _ _ x h)
+        · rcases mem_splitKwdsGo isSplit emit hemit rest _ _ x h with h1 | h1 | h1
+          · rcases hemit done k x h1 with h2 | h2 | h2
+            · exact Or.inl h2
+            · exact Or.inr (Or.inl (by rw [h2]; exact List.mem_cons_self))
+            · exact Or.inr (Or.inr h2)
+          · exact Or.inr (Or.inl (List.mem_cons_of_mem _ h1))
+          · exact Or.inr (Or.inr h1)
+
+theorem aligned_of_leaf (x : FNode) (h : x.isGroup = false) : aligned x = true := by
+  cases x with
+  | tok tt v => exact aligned_tok tt v
+  | grp c cv ks => cases h
+
+theorem alignedL_aSplitKwds (ch : Text) (st : ASt) (ks : List FNode) (h : alignedL ks = true) :
+    alignedL (aSplitKwds ch st ks) = true := by
+  rw [alignedL_iff] at h ⊢
+  intro x hx
+  unfold aSplitKwds at hx
+  rcases mem_splitKwdsGo _ _ (by
+      intro done k x hx
+      unfold aEmitKwd at hx
+      simp only [List.mem_cons] at hx
+      rcases hx with rfl | rfl | hx
+      · exact Or.inr (Or.inl rfl)
+      · exact Or.inr (Or.inr rfl)
+      · exact Or.inl hx) ks 0 [] x hx with h1 | h1 | h1
+  · simp at h1
+  · exact h x h1
+  · exact aligned_of_leaf x h1
+
+/-- what the handlers assume about the recursive call -/
+def ARecSafe (rec : ARec) : Prop := ∀ s n e, aligned n = true → rec s n = .error e → e = .recursionError
+
+theorem aKidsGo_err (rec : ARec) (hrec : ARecSafe rec) : ∀ (rest done : List FNode) (st : ASt) (e : PyErr),
+    alignedL rest = true → aKidsGo rec st done rest = .error e → e = .recursionError
+  | [], done, st, e, _, h => by simp [aKidsGo] at h
+  | k :: rest, done, st, e, hs, h => by
+    simp only [alignedL, Bool.and_eq_true] at hs
+    unfold aKidsGo at h
+    split at h
+    · simp only at h
+      split at h
+      · rename_i e2 he2
+        simp only [Except.error.injEq] at h
+        rw [← h]; exact hrec _ _ _ hs.1 he2
+      · exact aKidsGo_err rec hrec rest _ _ e hs.2 h
+    · exact aKidsGo_err rec hrec rest _ _ e hs.2 h
+
+theorem aDefault_err (ch : Text) (rec : ARec) (hrec : ARecSafe rec) (st : ASt) (ks : List FNode) (e : PyErr)
+    (hs : alignedL ks = true) (h : aDefault ch rec st ks = .error e) : e = .recursionError := by
+  unfold aDefault at h
+  exact aKidsGo_err rec hrec _ _ _ e (alignedL_aSplitKwds ch st ks hs) h
+
+theorem alignedL_insertAt (l : List FNode) (i : Nat) (x : FNode) (hx : x.isGroup = false) (h : alignedL l = true) :
+    alignedL (insertAt l i x) = true := by
+  rw [alignedL_iff] at h ⊢
+  intro y hy
+  unfold insertAt at hy
+  rcases List.mem_append.mp hy with h1 | h1
+  · exact h y (List.mem_of_mem_take h1)
+  · rcases List.mem_cons.mp h1 with rfl | h2
+    · exact aligned_of_leaf _ hx
+    · exact h y (List.mem_of_mem_drop h2)
+
+theorem alignedL_insertAfterIdx (l : List FNode) (i : Nat) (x : FNode) (hx : x.isGroup = false) (h : alignedL l = true) :
+    alignedL (insertAfterIdx FNode.isWhitespace l i x) = true := by
+  unfold insertAfterIdx
+  split
+  · exact alignedL_insertAt l _ x hx h
+  · rw [alignedL_iff] at h ⊢
+    intro y hy
+    rcases List.mem_append.mp hy with h1 | h1
+    · exact h y h1
+    · simp only [List.mem_singleton] at h1; rw [h1]; exact aligned_of_leaf _ hx
+
+theorem alignedL_aBreakIdentifiers (nl : FNode) (hnl : nl.isGroup = false) : ∀ (l : List FNode) (b : Bool),
+    alignedL l = true → alignedL (aBreakIdentifiers nl b l) = true
+  | [], _, _ => rfl
+  | k :: rest, b, h => by
+    simp only [alignedL, Bool.and_eq_true] at h
+    unfold aBreakIdentifiers
+    split
+    · split
+      · simp only [alignedL, Bool.and_eq_true]
+        exact ⟨aligned_of_leaf _ hnl, h.1, alignedL_aBreakIdentifiers nl hnl rest _ h.2⟩
+      · simp only [alignedL, Bool.and_eq_true]
+        exact ⟨h.1, alignedL_aBreakIdentifiers nl hnl rest _ h.2⟩
+    · simp only [alignedL, Bool.and_eq_true]
+      exact ⟨h.1, alignedL_aBreakIdentifiers nl hnl rest _ h.2⟩
+
+
+/-! ### `_process_case`: the children the cases refer to stay findable -/
+
+def tagPresent (tl : TL) (t : Nat) : Bool := (tlIndex tl t).isSome
+
+theorem tagPresent_any (tl : TL) (t : Nat) : tagPresent tl t = tl.any (fun e => e.1 == t) := by
+  simp [tagPresent, tlIndex, List.findIdx?_isSome]
+
+theorem tagPresent_insertAt (tl : TL) (i : Nat) (e : Nat × FNode) (t : Nat) (h : tagPresent tl t = true) :
+    tagPresent (insertAt tl i e) t = true := by
+  rw [tagPresent_any] at h ⊢
+  unfold insertAt
+  have : tl.any (fun e => e.1 == t) = ((tl.take i).any (fun e => e.1 == t) || (tl.drop i).any (fun e => e.1 == t)) := by
+    rw [← List.any_append, List.take_append_drop]
+  rw [this] at h
+  rw [List.any_append, List.any_cons]
+  rcases Bool.or_eq_true _ _ |>.mp h with h1 | h1 <;> simp [h1]
+
+theorem tagPresent_insertAfterIdx (tl : TL) (i : Nat) (e : Nat × FNode) (t : Nat) (h : tagPresent tl t = true) :
+    tagPresent (insertAfterIdx tlWs tl i e) t = true := by
+  unfold insertAfterIdx
+  split
+  · exact tagPresent_insertAt tl _ e t h
+  · rw [tagPresent_any] at h ⊢
+    rw [List.any_append, h]; rfl
+
+/-- an item of the aligned case loop whose references can be resolved in `tl0` -/
+def ItemOK (tl0 : TL) (it : Option TL × Option (Nat × FNode)) : Prop :=
+  (∀ t n, it.2 = some (t, n) → tagPresent tl0 t = true) ∧
+  (∀ c0 cr, it.1 = some (c0 :: cr) → tagPresent tl0 ((c0 :: cr).getLast?.getD c0).1 = true)
+
+theorem aCaseLoop_ok (ch : Text) (st : ASt) (maxW : Nat) (tl0 : TL) :
+    ∀ (items : List (Option TL × Option (Nat × FNode))) (i : Nat) (tl : TL),
+      (∀ t, tagPresent tl0 t = true → tagPresent tl t = true) →
+      (∀ it ∈ items, ItemOK tl0 it) →
+      (i = 0 ∨ ∀ it ∈ items.take 1, it.2 ≠ none) → (∀ it ∈ items.drop 1, it.2 ≠ none) →
+      ∃ tl', aCaseLoop ch st maxW i tl items = .ok tl'
+  | [], i, tl, _, _, _, _ => ⟨tl, rfl⟩
+  | (cond, stmt) :: rest, i, tl, hsup, hok, hfirst, hrest => by
+    unfold aCaseLoop
+    have hit := hok (cond, stmt) List.mem_cons_self
+    have h1 : ∃ tl1, aCaseBreak ch st i tl stmt = .ok tl1 ∧ (∀ t, tagPresent tl0 t = true → tagPresent tl1 t = true) := by
+      unfold aCaseBreak
+      by_cases hi : i > 0
+      · rw [if_pos hi]
+        have hne : stmt ≠ none := by
+          rcases hfirst with h0 | h0
+          · omega
+          · exact h0 (cond, stmt) (by simp)
+        cases stmt with
+        | none => exact absurd rfl hne
+        | some tn =>
+          obtain ⟨t, n⟩ := tn
+          have hp := hsup t (hit.1 t n rfl)
+          simp only [tagPresent] at hp
+          simp only
+          cases hx : tlIndex tl t with
+          | none => rw [hx] at hp; cases hp
+          | some idx => exact ⟨_, rfl, fun t' ht' => tagPresent_insertAt tl idx _ t' (hsup t' ht')⟩
+      · rw [if_neg hi]; exact ⟨tl, rfl, hsup⟩
+    obtain ⟨tl1, he1, hsup1⟩ := h1
+    rw [he1]
+    simp only
+    have h2 : ∃ tl2, aCasePad ch maxW tl1 cond = .ok tl2 ∧ (∀ t, tagPresent tl0 t = true → tagPresent tl2 t = true) := by
+      unfold aCasePad
+      cases cond with
+      | none => exact ⟨tl1, rfl, hsup1⟩
+      | some c =>
+        cases c with
+        | nil => exact ⟨tl1, rfl, hsup1⟩
+        | cons c0 cr =>
+          simp only
+          have hp := hsup1 _ (hit.2 c0 cr rfl)
+          simp only [tagPresent] at hp
+          cases hx : tlIndex tl1 ((c0 :: cr).getLast?.getD c0).1 with
+          | none => rw [hx] at hp; cases hp
+          | some idx => exact ⟨_, rfl, fun t' ht' => tagPresent_insertAfterIdx tl1 idx _ t' (hsup1 t' ht')⟩
+    obtain ⟨tl2, he2, hsup2⟩ := h2
+    rw [he2]
+    simp only
+    apply aCaseLoop_ok ch st maxW tl0 rest (i + 1) tl2 hsup2 (fun it hi => hok it (List.mem_cons_of_mem _ hi))
+    · right
+      intro it hi
+      apply hrest it
+      simp only [List.drop_one, List.tail_cons]
+      exact List.mem_of_mem_take hi
+    · intro it hi
+      apply hrest it
+      simp only [List.drop_one, List.tail_cons]
+      exact List.mem_of_mem_drop hi
+
+
+theorem stmts_ok (endTok : Option (Nat × FNode)) :
+    ∀ (cases : List (Option TL × TL)), (∀ cv ∈ cases, ∃ x, aCaseStmtOf cv = .ok x) →
+      ∃ xs, aCaseStmts endTok cases = .ok (xs ++ [(none, endTok)]) ∧ xs.length = cases.length ∧
+        ∀ it ∈ xs, ∃ cv ∈ cases, aCaseStmtOf cv = .ok it
+  | [], _ => ⟨[], by simp [aCaseStmts], rfl, by simp⟩
+  | cv :: rest, h => by
+    obtain ⟨x, hx⟩ := h cv List.mem_cons_self
+    obtain ⟨xs, hxs, hlen, hall⟩ := stmts_ok endTok rest (fun c hc => h c (List.mem_cons_of_mem _ hc))
+    refine ⟨x :: xs, ?_, by simp [hlen], ?_⟩
+    · simp [aCaseStmts, hx, hxs]
+    · intro it hit
+      rcases List.mem_cons.mp hit with rfl | h2
+      · exact ⟨cv, List.mem_cons_self, hx⟩
+      · obtain ⟨c, hc, hfc⟩ := hall it h2
+        exact ⟨c, List.mem_cons_of_mem _ hc, hfc⟩
+
+/-- the item `aCaseStmtOf` builds, spelled out -/
+theorem aCaseStmtOf_ok (c : Option TL) (v : TL) (it : Option TL × Option (Nat × FNode)) (h : aCaseStmtOf (c, v) = .ok it) :
+    it.1 = c ∧ ∃ e, it.2 = some e ∧ e ∈ (c.getD []) ++ v := by
+  unfold aCaseStmtOf at h
+  cases c with
+  | none =>
+    cases v with
+    | nil => simp at h
+    | cons v0 vr => simp only [Except.ok.injEq] at h; rw [← h]; exact ⟨rfl, v0, rfl, by simp⟩
+  | some cl =>
+    cases cl with
+    | nil =>
+      cases v with
+      | nil => simp at h
+      | cons v0 vr => simp only [Except.ok.injEq] at h; rw [← h]; exact ⟨rfl, v0, rfl, by simp⟩
+    | cons c0 cr => simp only [Except.ok.injEq] at h; rw [← h]; exact ⟨rfl, c0, rfl, by simp⟩
+
+theorem tagPresent_refl_sup (tl : TL) : ∀ t, tagPresent tl t = true → tagPresent tl t = true := fun _ h => h
+
+/-- on the domain `alignedCaseOK` the aligned `_process_case` does not raise -/
+theorem aCase_ok (ch : Text) (st : ASt) (ks : List FNode) (hs : alignedCaseOK ks = true) :
+    ∃ r, aCase ch st ks = .ok r := by
+  unfold alignedCaseOK at hs
+  unfold aCase
+  simp only
+  cases hg : getCases true (tagAll ks) with
+  | error e => rw [hg] at hs; cases hs
+  | ok cases =>
+    rw [hg] at hs
+    simp only [Bool.and_eq_true] at hs
+    obtain ⟨⟨hitems, htags⟩, hend⟩ := hs
+    simp only
+    have hf : ∀ cv ∈ cases, ∃ x, aCaseStmtOf cv = .ok x := by
+      intro cv hcv
+      have := List.all_eq_true.mp hitems cv hcv
+      unfold caseItemOK at this
+      unfold aCaseStmtOf
+      obtain ⟨c, v⟩ := cv
+      cases c with
+      | none =>
+        cases v with
+        | nil => simp at this
+        | cons v0 vr => exact ⟨_, rfl⟩
+      | some cl =>
+        cases cl with
+        | nil =>
+          cases v with
+          | nil => simp at this
+          | cons v0 vr => exact ⟨_, rfl⟩
+        | cons c0 cr => exact ⟨_, rfl⟩
+    obtain ⟨xs, hxs, hlen, hall⟩ := stmts_ok ((tagAll ks).find? (fun e => e.2.matchKw "END")) cases hf
+    rw [hxs]
+    simp only
+    have hloop : ∃ tl', aCaseLoop ch st ((cases.map fun cv => condWidth cv.1).foldl max 0) 0 (tagAll ks)
+        (xs ++ [(none, (tagAll ks).find? (fun e => e.2.matchKw "END"))]) = .ok tl' := by
+      apply aCaseLoop_ok ch st _ (tagAll ks) _ 0 (tagAll ks) (tagPresent_refl_sup _)
+      · intro it hit
+        rcases List.mem_append.mp hit with h1 | h1
+        · obtain ⟨cv, hcv, hfc⟩ := hall it h1
+          have htg := List.all_eq_true.mp htags cv hcv
+          rw [List.all_eq_true] at htg
+          obtain ⟨c, v⟩ := cv
+          have inAll : ∀ e, e ∈ (c.getD []) ++ v → tagPresent (tagAll ks) e.1 = true := by
+            intro e he
+            have := htg e he
+            simp only [Bool.and_eq_true] at this
+            exact this.2
+          obtain ⟨h1c, e, h2e, hmem⟩ := aCaseStmtOf_ok c v it hfc
+          constructor
+          · intro t n h
+            rw [h2e] at h
+            injection h with h
+            have := inAll e hmem
+            rw [h] at this
+            exact this
+          · intro d0 dr h
+            rw [h1c] at h
+            apply inAll
+            rw [h]
+            simp only [Option.getD_some]
+            apply List.mem_append_left
+            have : (d0 :: dr).getLast?.getD d0 = (d0 :: dr).getLast (by simp) := by
+              rw [List.getLast?_eq_some_getLast (by simp)]; rfl
+            rw [this]
+            exact List.getLast_mem _
+        · simp only [List.mem_singleton] at h1
+          rw [h1]
+          refine ⟨?_, by intro c0 cr h; cases h⟩
+          intro t n h
+          have hmem := List.mem_of_find?_eq_some h
+          rw [tagPresent_any]
+          exact List.any_eq_true.mpr ⟨(t, n), hmem, by simp⟩
+      · left; rfl
+      · intro it hit
+        cases xs with
+        | nil => simp at hit
+        | cons x0 xr =>
+          simp only [List.cons_append, List.drop_one, List.tail_cons] at hit
+          rcases List.mem_append.mp hit with h1 | h1
+          · obtain ⟨cv, hcv, hfc⟩ := hall it (List.mem_cons_of_mem _ h1)
+            obtain ⟨c, v⟩ := cv
+            obtain ⟨_, e, h2e, _⟩ := aCaseStmtOf_ok c v it hfc
+            rw [h2e]; simp
+          · simp only [List.mem_singleton] at h1
+            rw [h1]
+            simp only [ne_eq]
+            have hne : cases.isEmpty = false := by
+              cases cases with
+              | nil => simp at hlen
+              | cons a b => rfl
+            rw [hne, Bool.false_or, List.any_eq_true] at hend
+            obtain ⟨e, he, hm⟩ := hend
+            intro hnone
+            have := List.find?_eq_none.mp hnone e he
+            simp [hm] at this
+    obtain ⟨tl', htl'⟩ := hloop
+    rw [htl']
+    exact ⟨_, rfl⟩
+
+
+theorem isGroup_aNl (ch : Text) (st : ASt) (off : Int) : (aNl ch st off).isGroup = false := rfl
+theorem isGroup_aNlStr (ch : Text) (st : ASt) (s : Text) : (aNlStr ch st s).isGroup = false := rfl
+
+theorem aDispatch_err (ch : Text) (rec : ARec) (hrec : ARecSafe rec) (c : Cls) (cv : Text) (st : ASt) (ks : List FNode) (e : PyErr)
+    (hc : c ≠ .Statement) (hs : aligned (.grp c cv ks) = true) (h : aDispatch ch rec c st ks = .error e) : e = .recursionError := by
+  unfold aDispatch at h
+  unfold aligned at hs
+  split at h
+  · -- Parenthesis
+    simp only at hs
+    unfold aParenthesis at h
+    split at h
+    · rename_i hsel
+      have hsel' : hasSelect ks = true := hsel
+      simp only [hsel', Bool.not_true, Bool.false_or] at hs
+      simp only at h
+      split at h
+      · rename_i e2 he2
+        simp only [Except.error.injEq] at h
+        rw [← h]
+        exact aDefault_err ch rec hrec _ _ e2 (alignedL_insertAfterIdx ks 0 _ (isGroup_aNlStr ch _ _) hs) he2
+      · cases h
+    · cases h
+  · -- IdentifierList
+    simp only [Bool.and_eq_true] at hs
+    unfold aIdentifierList at h
+    split at h
+    · exact aDefault_err ch rec hrec _ _ e (alignedL_aBreakIdentifiers _ (isGroup_aNl ch st _) ks false hs.2) h
+    · rename_i hno
+      exact absurd hs.1 hno
+  · -- Case
+    simp only at hs
+    obtain ⟨r, hr⟩ := aCase_ok ch st ks hs
+    rw [hr] at h; cases h
+  · -- default
+    rename_i h1 h2 h3
+    have hs' : alignedL ks = true := by
+      cases c <;> first | exact hs | exact absurd rfl h1 | exact absurd rfl h2 | exact absurd rfl h3
+    exact aDefault_err ch rec hrec _ _ e hs' h
+
+theorem alignedL_tail (k : FNode) (rest : List FNode) (h : alignedL (k :: rest) = true) : alignedL rest = true := by
+  simp only [alignedL, Bool.and_eq_true] at h; exact h.2
+
+theorem aProcess_safe (ch : Text) : ∀ (fuel : Nat), ARecSafe (fun s n => aProcess ch fuel s n)
+  | fuel, s, .tok tt v, e, _, h => by cases fuel <;> simp [aProcess] at h
+  | 0, s, .grp c cv ks, e, _, h => by simp only [aProcess, Except.error.injEq] at h; exact h.symm
+  | fuel+1, s, .grp c cv ks, e, hs, h => by
+    unfold aProcess at h
+    dsimp only at h
+    split at h
+    · rename_i hc
+      have hc' : c = .Statement := by simpa using hc
+      subst hc'
+      cases fuel with
+      | zero => simp only [Except.error.injEq] at h; exact h.symm
+      | succ fuel' =>
+        simp only at h
+        split at h
+        · rename_i e2 he2
+          simp only [Except.error.injEq] at h
+          rw [← h]
+          have hall : alignedL ks = true := by unfold aligned at hs; exact hs
+          refine aDefault_err ch _ (aProcess_safe ch fuel') _ _ e2 ?_ he2
+          split
+          · rename_i k rest
+            split
+            · exact alignedL_tail k rest hall
+            · exact hall
+          · exact hall
+        · cases h
+    · rename_i hc
+      have hc' : c ≠ .Statement := by simpa using hc
+      split at h
+      · rename_i e2 he2
+        simp only [Except.error.injEq] at h
+        rw [← h]
+        exact aDispatch_err ch _ (aProcess_safe ch fuel) c cv _ ks e2 hc' hs he2
+      · cases h
+
+/-- C07 / KF-C07-2 as a theorem: on the domain `FilterSafe.aligned` `AlignedIndentFilter.process` raises nothing but
+`RecursionError` — every indent character, filter state and fuel -/
+theorem aligned_total (ch : Text) (fuel : Nat) (st : ASt) (n : FNode) (hs : FilterSafe.aligned n = true) (e : PyErr)
+    (h : alignedProcess ch fuel st n = .error e) : e = .recursionError :=
+  aProcess_safe ch fuel st n e hs h
+
+
+/-! ## `ReindentFilter` -/
+
+theorem reindentL_iff (b : Bool) : ∀ (l : List FNode), reindentL b l = true ↔ ∀ x ∈ l, reindent b x = true
+  | [] => by simp [reindentL]
+  | k :: l => by simp only [reindentL, Bool.and_eq_true, List.mem_cons, forall_eq_or_imp, reindentL_iff b l]
+
+theorem reindent_of_leaf (b : Bool) (x : FNode) (h : x.isGroup = false) : reindent b x = true := by
+  cases x with
+  | tok tt v => simp [reindent]
+  | grp c cv ks => cases h
+
+/-- a list all of whose elements are elements of `orig` or leaves -/
+def FromOrig (orig l : List FNode) : Prop := ∀ x ∈ l, x ∈ orig ∨ x.isGroup = false
+
+theorem FromOrig.safe (b : Bool) (orig l : List FNode) (h : FromOrig orig l) (hs : reindentL b orig = true) :
+    reindentL b l = true := by
+  rw [reindentL_iff] at hs ⊢
+  intro x hx
+  rcases h x hx with h1 | h1
+  · exact hs x h1
+  · exact reindent_of_leaf b x h1
+
+theorem FromOrig.refl (l : List FNode) : FromOrig l l := fun _ hx => Or.inl hx
+
+theorem FromOrig.insertAt (orig l : List FNode) (i : Nat) (x : FNode) (hx : x.isGroup = false) (h : FromOrig orig l) :
+    FromOrig orig (insertAt l i x) := by
+  intro y hy
+  unfold Sql.insertAt at hy
+  rcases List.mem_append.mp hy with h1 | h1
+  · exact h y (List.mem_of_mem_take h1)
+  · rcases List.mem_cons.mp h1 with rfl | h2
+    · exact Or.inr hx
+    · exact h y (List.mem_of_mem_drop h2)
+
+theorem FromOrig.insertAfterIdx (orig l : List FNode) (i : Nat) (x : FNode) (hx : x.isGroup = false) (h : FromOrig orig l) :
+    FromOrig orig (insertAfterIdx FNode.isWhitespace l i x) := by
+  unfold Sql.insertAfterIdx
+  split
+  · exact FromOrig.insertAt orig l _ x hx h
+  · intro y hy
+    rcases List.mem_append.mp hy with h1 | h1
+    · exact h y h1
+    · simp only [List.mem_singleton] at h1; rw [h1]; exact Or.inr hx
+
+theorem FromOrig.cons (orig l : List FNode) (x : FNode) (hx : x.isGroup = false) (h : FromOrig orig l) :
+    FromOrig orig (x :: l) := by
+  intro y hy
+  rcases List.mem_cons.mp hy with rfl | h2
+  · exact Or.inr hx
+  · exact h y h2
+
+theorem mem_rSplitStatementsGo (nl : FNode) : ∀ (rest done : List FNode) (x : FNode),
+    x ∈ rSplitStatementsGo nl done rest → x ∈ done ∨ x ∈ rest ∨ x = nl
+  | [], done, x, h => by simp only [rSplitStatementsGo, List.mem_reverse] at h; exact Or.inl h
+  | k :: rest, done, x, h => by
+    unfold rSplitStatementsGo at h
+    split at h
+    · cases done with
+      | nil =>
+        simp only at h
+        rcases mem_rSplitStatementsGo nl rest [k] x h with h1 | h1 | h1
+        · simp only [List.mem_singleton] at h1; rw [h1]; exact Or.inr (Or.inl List.mem_cons_self)
+        · exact Or.inr (Or.inl (List.mem_cons_of_mem _ h1))
+        · exact Or.inr (Or.inr h1)
+      | cons p done' =>
+        simp only at h
+        rcases mem_rSplitStatementsGo nl rest _ x h with h1 | h1 | h1
+        · rcases List.mem_cons.mp h1 with rfl | h2
+          · exact Or.inr (Or.inl List.mem_cons_self)
+          · rcases List.mem_cons.mp h2 with rfl | h3
+            · exact Or.inr (Or.inr rfl)
+            · left
+              by_cases hp : p.isWhitespace = true
+              · simp only [hp, if_true] at h3; exact List.mem_cons_of_mem _ h3
+              · simp only [hp, Bool.false_eq_true, if_false] at h3; exact h3
+        · exact Or.inr (Or.inl (List.mem_cons_of_mem _ h1))
+        · exact Or.inr (Or.inr h1)
+    · rcases mem_rSplitStatementsGo nl rest (k :: done) x h with h1 | h1 | h1
+      · rcases List.mem_cons.mp h1 with rfl | h2
+        · exact Or.inr (Or.inl List.mem_cons_self)
+        · exact Or.inl h2
+      · exact Or.inr (Or.inl (List.mem_cons_of_mem _ h1))
+      · exact Or.inr (Or.inr h1)
+
+theorem isGroup_rNl (cfg : RCfg) (st : RSt) (off : Int) : (rNl cfg st off).isGroup = false := rfl
+
+theorem FromOrig.rSplitStatements (orig ks : List FNode) (nl : FNode) (hnl : nl.isGroup = false) (h : FromOrig orig ks) :
+    FromOrig orig (rSplitStatementsGo nl [] ks) := by
+  intro x hx
+  rcases mem_rSplitStatementsGo nl ks [] x hx with h1 | h1 | h1
+  · simp at h1
+  · exact h x h1
+  · rw [h1]; exact Or.inr hnl
+
+theorem FromOrig.rSplitKwds (orig ks : List FNode) (nl : FNode) (hnl : nl.isGroup = false) (h : FromOrig orig ks) :
+    FromOrig orig (rSplitKwds nl ks) := by
+  intro x hx
+  unfold Sql.rSplitKwds at hx
+  rcases mem_splitKwdsGo _ _ (by
+      intro done k x hx
+      unfold rEmitKwd at hx
+      cases done with
+      | nil =>
+        simp only [List.mem_cons, List.mem_nil_iff, or_false] at hx
+        rcases hx with rfl | rfl
+        · exact Or.inr (Or.inl rfl)
+        · exact Or.inr (Or.inr hnl)
+      | cons p d' =>
+        simp only at hx
+        have sub : ∀ y, y ∈ (if p.isWhitespace = true then d' else p :: d') → y ∈ p :: d' := by
+          intro y hy
+          by_cases hp : p.isWhitespace = true
+          · simp only [hp, if_true] at hy; exact List.mem_cons_of_mem _ hy
+          · simp only [hp, Bool.false_eq_true, if_false] at hy; exact hy
+        split at hx
+        · rcases List.mem_cons.mp hx with rfl | h2
+          · exact Or.inr (Or.inl rfl)
+          · exact Or.inl (sub x h2)
+        · rcases List.mem_cons.mp hx with rfl | h2
+          · exact Or.inr (Or.inl rfl)
+          · rcases List.mem_cons.mp h2 with rfl | h3
+            · exact Or.inr (Or.inr hnl)
+            · exact Or.inl (sub x h3)) ks 0 [] x hx with h1 | h1 | h1
+  · simp at h1
+  · exact h x h1
+  · exact Or.inr h1
+
+/-- what the handlers assume about the recursive call: safe below a node whose ancestors are `a` -/
+def inFnOf (a : List Cls) : Bool := a.contains .Function || a.contains .Values
+
+def RRecSafe (rec : RRec) : Prop :=
+  ∀ a p s n e, reindent (inFnOf a) n = true → rec a p s n = .error e → e = .recursionError
+
+theorem rMapKids_err (rec : Text → RSt → FNode → Except PyErr (FNode × RSt)) (b : Bool)
+    (hrec : ∀ p s n e, reindent b n = true → rec p s n = .error e → e = .recursionError) :
+    ∀ (ks : List FNode) (pre : Text) (st : RSt) (e : PyErr), reindentL b ks = true →
+      rMapKids rec pre st ks = .error e → e = .recursionError
+  | [], pre, st, e, _, h => by simp [rMapKids] at h
+  | k :: rest, pre, st, e, hs, h => by
+    simp only [reindentL, Bool.and_eq_true] at hs
+    unfold rMapKids at h
+    cases hk : rec pre st k with
+    | error e2 =>
+      rw [hk] at h
+      simp only [Except.error.injEq] at h
+      rw [← h]; exact hrec _ _ _ _ hs.1 hk
+    | ok r =>
+      obtain ⟨k', st1⟩ := r
+      rw [hk] at h
+      simp only at h
+      cases hr : rMapKids rec (pre ++ k'.text) st1 rest with
+      | error e2 =>
+        rw [hr] at h
+        simp only [Except.error.injEq] at h
+        rw [← h]; exact rMapKids_err rec b hrec rest _ _ e2 hs.2 hr
+      | ok r2 => rw [hr] at h; cases h
+
+/-- `_process_default` raises only what the recursion raises, provided the list consists of safe children and leaves -/
+theorem rDefault_err (cfg : RCfg) (rec : RRec) (hrec : RRecSafe rec) (anc : List Cls) (pre : Text) (st : RSt) (stmts : Bool)
+    (orig ks : List FNode) (e : PyErr) (hfrom : FromOrig orig ks) (hs : reindentL (inFnOf anc) orig = true)
+    (h : rDefault cfg rec anc pre st stmts ks = .error e) : e = .recursionError := by
+  unfold rDefault at h
+  apply rMapKids_err (rec anc) (inFnOf anc) (fun p s n e hn he => hrec anc p s n e hn he) _ _ _ e ?_ h
+  apply FromOrig.safe _ orig _ _ hs
+  apply FromOrig.rSplitKwds _ _ _ (isGroup_rNl cfg st 0)
+  cases stmts with
+  | false => exact hfrom
+  | true => exact FromOrig.rSplitStatements _ _ _ (isGroup_rNl cfg st 0) hfrom
+
+
+theorem rGetOffset_ok (cfg : RCfg) (st : RSt) (pre : Text) (ks : List FNode) (idx : Nat) (k : FNode)
+    (h1 : ks[idx]? = some k) (h2 : k.hasLeaf = true) : ∃ o, rGetOffset cfg st pre ks idx = .ok o := by
+  unfold rGetOffset
+  rw [h1]
+  simp [h2]
+
+theorem findIdx?_get {α : Type} (p : α → Bool) (l : List α) (i : Nat) (h : l.findIdx? p = some i) :
+    ∃ k, l[i]? = some k ∧ p k = true := by
+  obtain ⟨hlt, hp, _⟩ := List.findIdx?_eq_some_iff_getElem.mp h
+  exact ⟨l[i], by simp [hlt], hp⟩
+
+theorem rWhere_err (cfg : RCfg) (rec : RRec) (hrec : RRecSafe rec) (anc : List Cls) (pre : Text) (st : RSt)
+    (ks : List FNode) (e : PyErr) (hs : (!ks.any (·.matchKw "WHERE") || reindentL (inFnOf anc) ks) = true)
+    (h : rWhere cfg rec anc pre st ks = .error e) : e = .recursionError := by
+  unfold rWhere at h
+  split at h
+  · cases h
+  · rename_i i hi
+    obtain ⟨k, hk, hp⟩ := findIdx?_get _ ks i hi
+    have hany : ks.any (·.matchKw "WHERE") = true := List.any_eq_true.mpr ⟨k, List.mem_of_getElem? hk, hp⟩
+    simp only [hany, Bool.not_true, Bool.false_or] at hs
+    split at h
+    · rename_i e2 he2
+      simp only [Except.error.injEq] at h
+      rw [← h]
+      exact rDefault_err cfg rec hrec anc pre _ true ks _ e2
+        (FromOrig.insertAt ks ks i _ (isGroup_rNl cfg st 0) (FromOrig.refl ks)) hs he2
+    · cases h
+
+theorem hasLeaf_of_matchP (k : FNode) (ps : List MPat) (h : k.matchAnyP ps = true) : k.hasLeaf = true := by
+  cases k with
+  | tok tt v => rfl
+  | grp c cv ks =>
+    simp only [FNode.matchAnyP, List.any_eq_true] at h
+    obtain ⟨p, _, hp⟩ := h
+    simp [FNode.matchP] at hp
+
+theorem rParenthesis_err (cfg : RCfg) (rec : RRec) (hrec : RRecSafe rec) (anc : List Cls) (pre : Text) (st : RSt)
+    (ks : List FNode) (e : PyErr)
+    (hs : (!ks.any (·.matchAnyP Gen.Parenthesis_M_OPEN) || reindentL (inFnOf anc) ks) = true)
+    (h : rParenthesis cfg rec anc pre st ks = .error e) : e = .recursionError := by
+  unfold rParenthesis at h
+  simp only at h
+  split at h
+  · cases h
+  · rename_i fidx hi
+    obtain ⟨k, hk, hp⟩ := findIdx?_get _ ks fidx hi
+    have hany : ks.any (·.matchAnyP Gen.Parenthesis_M_OPEN) = true :=
+      List.any_eq_true.mpr ⟨k, List.mem_of_getElem? hk, hp⟩
+    simp only [hany, Bool.not_true, Bool.false_or] at hs
+    split at h
+    · -- `_get_offset(first)` cannot fail: `first` is a leaf of the list
+      rename_i e2 he2
+      exfalso
+      have hleaf := hasLeaf_of_matchP k _ hp
+      by_cases hd : ks.any (·.ttInArg Gen.reindentParenTTypes) = true
+      · simp only [hd, if_true] at he2
+        obtain ⟨o, ho⟩ := rGetOffset_ok cfg _ pre (rNl cfg { st with indent := st.indent + 1 } :: ks) (fidx + 1) k
+          (by simpa using hk) hleaf
+        rw [ho] at he2; cases he2
+      · simp only [hd, Bool.false_eq_true, if_false] at he2
+        obtain ⟨o, ho⟩ := rGetOffset_ok cfg { st with indent := st.indent + 0 } pre ks fidx k hk hleaf
+        rw [ho] at he2; cases he2
+    · split at h
+      · rename_i e2 he2
+        simp only [Except.error.injEq] at h
+        rw [← h]
+        refine rDefault_err cfg rec hrec anc pre _ _ ks _ e2 ?_ hs he2
+        split
+        · exact FromOrig.cons ks ks _ (isGroup_rNl cfg _ 0) (FromOrig.refl ks)
+        · exact FromOrig.refl ks
+      · cases h
+
+theorem rFunction_err (cfg : RCfg) (rec : RRec) (hrec : RRecSafe rec) (anc : List Cls) (pre : Text) (st : RSt)
+    (ks : List FNode) (e : PyErr) (hs : (!ks.isEmpty && reindentL (inFnOf anc) ks) = true)
+    (h : rFunction cfg rec anc pre st ks = .error e) : e = .recursionError := by
+  simp only [Bool.and_eq_true] at hs
+  unfold rFunction at h
+  split at h
+  · simp at hs
+  · exact rDefault_err cfg rec hrec anc pre _ true _ _ e (FromOrig.refl _) hs.2 h
+
+
+/-! ### tagged lists -/
+
+theorem mem_tagFrom : ∀ (ks : List FNode) (i : Nat) (e : Nat × FNode), e ∈ tagFrom i ks →
+    e.2 ∈ ks ∧ i ≤ e.1 ∧ ks[e.1 - i]? = some e.2
+  | [], i, e, h => by simp [tagFrom] at h
+  | k :: ks, i, e, h => by
+    simp only [tagFrom, List.mem_cons] at h
+    rcases h with rfl | h
+    · simp
+    · obtain ⟨h1, h2, h3⟩ := mem_tagFrom ks (i + 1) e h
+      refine ⟨List.mem_cons_of_mem _ h1, by omega, ?_⟩
+      have : e.1 - i = (e.1 - (i + 1)) + 1 := by omega
+      rw [this, List.getElem?_cons_succ]; exact h3
+
+theorem mem_tagAll (ks : List FNode) (e : Nat × FNode) (h : e ∈ tagAll ks) : e.2 ∈ ks ∧ ks[e.1 - 1]? = some e.2 := by
+  obtain ⟨h1, _, h3⟩ := mem_tagFrom ks 1 e h
+  exact ⟨h1, h3⟩
+
+theorem filter_tagFrom (p : FNode → Bool) : ∀ (ks : List FNode) (i : Nat),
+    ((tagFrom i ks).filter (fun e => p e.2)).map (·.2) = ks.filter p
+  | [], _ => rfl
+  | k :: ks, i => by
+    simp only [tagFrom, List.filter_cons]
+    by_cases hk : p k = true
+    · simp [hk, filter_tagFrom p ks (i + 1)]
+    · simp [hk, filter_tagFrom p ks (i + 1)]
+
+/-- a tagged list all of whose nodes are nodes of `orig` or leaves -/
+def FromOrigT (orig : List FNode) (tl : TL) : Prop := ∀ e ∈ tl, e.2 ∈ orig ∨ e.2.isGroup = false
+
+theorem FromOrigT.untag (orig : List FNode) (tl : TL) (h : FromOrigT orig tl) : FromOrig orig (untag tl) := by
+  intro x hx
+  simp only [Sql.untag, List.mem_map] at hx
+  obtain ⟨e, he, rfl⟩ := hx
+  exact h e he
+
+theorem FromOrigT.tagAll (ks : List FNode) : FromOrigT ks (tagAll ks) := fun e he => Or.inl (mem_tagAll ks e he).1
+
+theorem FromOrigT.insertAt (orig : List FNode) (tl : TL) (i : Nat) (e : Nat × FNode) (he : e.2.isGroup = false)
+    (h : FromOrigT orig tl) : FromOrigT orig (insertAt tl i e) := by
+  intro y hy
+  unfold Sql.insertAt at hy
+  rcases List.mem_append.mp hy with h1 | h1
+  · exact h y (List.mem_of_mem_take h1)
+  · rcases List.mem_cons.mp h1 with rfl | h2
+    · exact Or.inr he
+    · exact h y (List.mem_of_mem_drop h2)
+
+theorem FromOrigT.insertAfterIdx (orig : List FNode) (tl : TL) (i : Nat) (e : Nat × FNode) (he : e.2.isGroup = false)
+    (h : FromOrigT orig tl) : FromOrigT orig (insertAfterIdx tlWs tl i e) := by
+  unfold Sql.insertAfterIdx
+  split
+  · exact FromOrigT.insertAt orig tl _ e he h
+  · intro y hy
+    rcases List.mem_append.mp hy with h1 | h1
+    · exact h y h1
+    · simp only [List.mem_singleton] at h1; rw [h1]; exact Or.inr he
+
+theorem FromOrigT.loopA (cfg : RCfg) (st : RSt) (orig : List FNode) : ∀ (ids : TL) (position : Int) (tl : TL),
+    FromOrigT orig tl → FromOrigT orig (rIdListLoopA cfg st position tl ids)
+  | [], _, tl, h => by simpa [rIdListLoopA] using h
+  | (tag, n) :: rest, position, tl, h => by
+    unfold rIdListLoopA
+    simp only
+    split
+    · split
+      · exact FromOrigT.loopA cfg st orig rest _ tl h
+      · split
+        · split
+          · exact FromOrigT.loopA cfg st orig rest _ tl h
+          · apply FromOrigT.loopA cfg st orig rest
+            split
+            · split
+              · exact FromOrigT.insertAfterIdx orig _ _ (0, FNode.tok T.Whitespace [32]) rfl
+                  (FromOrigT.insertAt orig tl _ (0, rNl cfg st (-2)) rfl h)
+              · exact FromOrigT.insertAt orig tl _ (0, rNl cfg st (-2)) rfl h
+            · exact FromOrigT.insertAt orig tl _ (0, rNl cfg st (-2)) rfl h
+        · exact FromOrigT.loopA cfg st orig rest _ _ (FromOrigT.insertAt orig tl _ (0, rNl cfg st 0) rfl h)
+    · exact FromOrigT.loopA cfg st orig rest _ tl h
+
+theorem FromOrigT.loopB (cfg : RCfg) (st : RSt) (orig : List FNode) : ∀ (ids : TL) (position : Int) (tl : TL),
+    FromOrigT orig tl → FromOrigT orig (rIdListLoopB cfg st position tl ids)
+  | [], _, tl, h => by simpa [rIdListLoopB] using h
+  | (tag, n) :: rest, position, tl, h => by
+    unfold rIdListLoopB
+    simp only
+    split
+    · split
+      · exact FromOrigT.loopB cfg st orig rest _ tl h
+      · exact FromOrigT.loopB cfg st orig rest _ _ (FromOrigT.insertAt orig tl _ (0, rNl cfg st 0) rfl h)
+    · exact FromOrigT.loopB cfg st orig rest _ tl h
+
+/-- the "ensure whitespace" loop: no exception when no comma-valued child is last; it only adds blanks -/
+theorem rEnsureWs_ok (orig : List FNode) : ∀ (tl : TL), ensureWsOK (untag tl) = true → FromOrigT orig tl →
+    ∃ tl1, rEnsureWs tl = .ok tl1 ∧ FromOrigT orig tl1 ∧ ∀ t, tagPresent tl t = true → tagPresent tl1 t = true
+  | [], _, h => ⟨[], rfl, h, fun _ ht => ht⟩
+  | (t, k) :: rest, hs, h => by
+    simp only [untag, List.map_cons, ensureWsOK, Bool.and_eq_true] at hs
+    have hrest : FromOrigT orig rest := fun e he => h e (List.mem_cons_of_mem _ he)
+    obtain ⟨r1, hr1, hf1, ht1⟩ := rEnsureWs_ok orig rest hs.2 hrest
+    have hk := h (t, k) List.mem_cons_self
+    unfold rEnsureWs
+    by_cases hv : (k.value == [44]) = true
+    · rw [if_pos hv]
+      cases rest with
+      | nil =>
+        have h0 := hs.1
+        have hv' : k.value = [44] := by simpa using hv
+        simp [hv'] at h0
+      | cons n rest' =>
+        simp only [hr1]
+        refine ⟨_, rfl, ?_, ?_⟩
+        · split
+          · intro e he
+            rcases List.mem_cons.mp he with rfl | h2
+            · exact hk
+            · exact hf1 e h2
+          · intro e he
+            rcases List.mem_cons.mp he with rfl | h2
+            · exact hk
+            · rcases List.mem_cons.mp h2 with rfl | h3
+              · exact Or.inr rfl
+              · exact hf1 e h3
+        · intro t' ht'
+          rw [tagPresent_any] at ht' ⊢
+          simp only [List.any_cons, Bool.or_eq_true] at ht'
+          rcases ht' with h0 | h0
+          · split <;> simp [h0]
+          · have := ht1 t' (by rw [tagPresent_any]; simpa using h0)
+            rw [tagPresent_any] at this
+            split <;> simp [this]
+    · rw [if_neg hv, hr1]
+      refine ⟨_, rfl, ?_, ?_⟩
+      · intro e he
+        rcases List.mem_cons.mp he with rfl | h2
+        · exact hk
+        · exact hf1 e h2
+      · intro t' ht'
+        rw [tagPresent_any] at ht' ⊢
+        simp only [List.any_cons, Bool.or_eq_true] at ht'
+        rcases ht' with h0 | h0
+        · simp [h0]
+        · have := ht1 t' (by rw [tagPresent_any]; exact h0)
+          rw [tagPresent_any] at this
+          simp [this]
+
+theorem rIdListFirstBreak_ok (cfg : RCfg) (st1 : RSt) (adjusted : Int) (orig : List FNode) (tl1 ids' : TL)
+    (hne : ids' ≠ []) (hpres : ∀ e ∈ ids', tagPresent tl1 e.1 = true) (hf : FromOrigT orig tl1) :
+    ∃ tl2, rIdListFirstBreak cfg st1 adjusted tl1 ids' = .ok tl2 ∧ FromOrigT orig tl2 := by
+  unfold rIdListFirstBreak
+  split
+  · cases ids' with
+    | nil => exact absurd rfl hne
+    | cons e0 r =>
+      obtain ⟨tg, n⟩ := e0
+      simp only
+      have hp := hpres (tg, n) List.mem_cons_self
+      simp only [tagPresent] at hp
+      cases hx : tlIndex tl1 tg with
+      | none => rw [hx] at hp; cases hp
+      | some i => exact ⟨_, rfl, FromOrigT.insertAt orig tl1 i _ rfl hf⟩
+  · exact ⟨tl1, rfl, hf⟩
+
+
+theorem tagPresent_of_mem (tl : TL) (e : Nat × FNode) (h : e ∈ tl) : tagPresent tl e.1 = true := by
+  rw [tagPresent_any]
+  exact List.any_eq_true.mpr ⟨e, h, by simp⟩
+
+theorem rIdentifierList_err (cfg : RCfg) (rec : RRec) (hrec : RRecSafe rec) (anc : List Cls) (pre : Text) (st : RSt)
+    (ks : List FNode) (e : PyErr) (hs1 : idListOK (inFnOf (anc.drop 1)) ks = true) (hs2 : reindentL (inFnOf anc) ks = true)
+    (h : rIdentifierList cfg rec anc pre st ks = .error e) : e = .recursionError := by
+  unfold rIdentifierList at h
+  simp only at h
+  have hmap := filter_tagFrom isIdentifierItem ks 1
+  change ((tagAll ks).filter (fun e => isIdentifierItem e.2)).map (·.2) = ks.filter isIdentifierItem at hmap
+  unfold idListOK at hs1
+  cases hids : (tagAll ks).filter (fun e => isIdentifierItem e.2) with
+  | nil =>
+    rw [hids] at hmap
+    simp only [List.map_nil] at hmap
+    rw [← hmap] at hs1
+    cases hs1
+  | cons e0 idsRest =>
+    obtain ⟨t0, n0⟩ := e0
+    rw [hids] at hmap h
+    simp only [List.map_cons] at hmap
+    rw [← hmap] at hs1
+    simp only [Bool.and_eq_true] at hs1
+    obtain ⟨hleaf, hfn⟩ := hs1
+    have hmem0 : (t0, n0) ∈ tagAll ks := by
+      have : (t0, n0) ∈ (tagAll ks).filter (fun e => isIdentifierItem e.2) := by rw [hids]; exact List.mem_cons_self
+      exact (List.mem_filter.mp this).1
+    have hidsMem : ∀ x ∈ (t0, n0) :: idsRest, x ∈ tagAll ks := by
+      intro x hx
+      have : x ∈ (tagAll ks).filter (fun e => isIdentifierItem e.2) := by rw [hids]; exact hx
+      exact (List.mem_filter.mp this).1
+    simp only [hleaf, Bool.not_true, Bool.false_eq_true, if_false] at h
+    split at h
+    · -- the first offset cannot fail
+      rename_i e2 he2
+      exfalso
+      split at he2
+      · cases he2
+      · split at he2
+        · cases he2
+        · obtain ⟨o, ho⟩ := rGetOffset_ok cfg st pre ks (t0 - 1) n0 (mem_tagAll ks (t0, n0) hmem0).2 hleaf
+          rw [ho] at he2
+          cases he2
+    · rename_i ids' numOffset hfo
+      have hids' : ids' = (t0, n0) :: idsRest ∨ ids' = idsRest := by
+        split at hfo
+        · simp only [Except.ok.injEq, Prod.mk.injEq] at hfo; exact Or.inl hfo.1.symm
+        · split at hfo
+          · simp only [Except.ok.injEq, Prod.mk.injEq] at hfo; exact Or.inr hfo.1.symm
+          · cases ho : rGetOffset cfg st pre ks (t0 - 1) with
+            | error e3 => rw [ho] at hfo; cases hfo
+            | ok o =>
+              rw [ho] at hfo
+              simp only [Except.map, Except.ok.injEq, Prod.mk.injEq] at hfo
+              exact Or.inr hfo.1.symm
+      have hids'Mem : ∀ x ∈ ids', x ∈ tagAll ks := by
+        intro x hx
+        rcases hids' with rfl | rfl
+        · exact hidsMem x hx
+        · exact hidsMem x (List.mem_cons_of_mem _ hx)
+      split at h
+      · -- outside functions / VALUES
+        exact rDefault_err cfg rec hrec anc pre st true ks _ e
+          (FromOrigT.untag ks _ (FromOrigT.loopA cfg _ ks ids' 0 _ (FromOrigT.tagAll ks))) hs2 h
+      · rename_i hin
+        have hinFn : inFnOf (anc.drop 1) = true := by
+          simp only [inFnOf]
+          cases h1 : (anc.drop 1).contains Cls.Function <;> cases h2 : (anc.drop 1).contains Cls.Values <;> simp_all
+        simp only [hinFn, Bool.not_true, Bool.false_or, Bool.and_eq_true] at hfn
+        obtain ⟨hens, hrestne⟩ := hfn
+        obtain ⟨tl1, htl1, hf1, hp1⟩ := rEnsureWs_ok ks (tagAll ks) (by rw [untag_tagAll]; exact hens) (FromOrigT.tagAll ks)
+        rw [htl1] at h
+        simp only at h
+        have hne : ids' ≠ [] := by
+          rcases hids' with rfl | rfl
+          · simp
+          · intro h0; rw [h0] at hrestne; simp at hrestne
+        have hpres : ∀ x ∈ ids', tagPresent tl1 x.1 = true :=
+          fun x hx => hp1 _ (tagPresent_of_mem _ x (hids'Mem x hx))
+        split at h
+        · rename_i e2 he2
+          obtain ⟨tl2, htl2, _⟩ := rIdListFirstBreak_ok cfg _ _ ks tl1 ids' hne hpres hf1
+          rw [htl2] at he2
+          cases he2
+        · rename_i tl2 htl2
+          obtain ⟨tl2', htl2', hf2⟩ := rIdListFirstBreak_ok cfg _ _ ks tl1 ids' hne hpres hf1
+          rw [htl2'] at htl2
+          simp only [Except.ok.injEq] at htl2
+          subst htl2
+          exact rDefault_err cfg rec hrec anc pre st true ks _ e
+            (FromOrigT.untag ks _ (FromOrigT.loopB cfg _ ks ids' 0 _ hf2)) hs2 h
+
+
+theorem rCaseLoop_ok (cfg : RCfg) (st : RSt) (orig : List FNode) (tl0 : TL) :
+    ∀ (cases : List (Option TL × TL)) (tl : TL), FromOrigT orig tl →
+      (∀ t, tagPresent tl0 t = true → tagPresent tl t = true) →
+      (∀ cv ∈ cases, caseBreakOK cv = true ∧ ∀ x ∈ (cv.1.getD []) ++ cv.2, tagPresent tl0 x.1 = true) →
+      ∃ tl', rCaseLoop cfg st tl cases = .ok tl' ∧ FromOrigT orig tl'
+  | [], tl, hf, _, _ => ⟨tl, rfl, hf⟩
+  | (cond, value) :: rest, tl, hf, hsup, hall => by
+    unfold rCaseLoop
+    have hrest : ∀ cv ∈ rest, caseBreakOK cv = true ∧ ∀ x ∈ (cv.1.getD []) ++ cv.2, tagPresent tl0 x.1 = true :=
+      fun cv hcv => hall cv (List.mem_cons_of_mem _ hcv)
+    split
+    · obtain ⟨hb, htags⟩ := hall (cond, value) List.mem_cons_self
+      -- the break token
+      have htag : ∃ t, caseBreakTag cond value = .ok t ∧ tagPresent tl0 t = true := by
+        unfold caseBreakTag
+        unfold caseBreakOK at hb
+        cases cond with
+        | none =>
+          cases value with
+          | nil => simp at hb
+          | cons v0 vr => exact ⟨v0.1, rfl, htags v0 (by simp)⟩
+        | some c =>
+          cases c with
+          | nil => simp at hb
+          | cons c0 cr => exact ⟨c0.1, rfl, htags c0 (by simp)⟩
+      obtain ⟨t, ht, hp⟩ := htag
+      rw [ht]
+      simp only
+      have hp' := hsup t hp
+      simp only [tagPresent] at hp'
+      cases hx : tlIndex tl t with
+      | none => rw [hx] at hp'; cases hp'
+      | some i =>
+        simp only
+        exact rCaseLoop_ok cfg st orig tl0 rest _ (FromOrigT.insertAt orig tl i _ rfl hf)
+          (fun t' ht' => tagPresent_insertAt tl i _ t' (hsup t' ht')) hrest
+    · exact rCaseLoop_ok cfg st orig tl0 rest tl hf hsup hrest
+
+theorem rCase_err (cfg : RCfg) (rec : RRec) (hrec : RRecSafe rec) (anc : List Cls) (pre : Text) (st : RSt)
+    (ks : List FNode) (e : PyErr) (hs1 : reindentCaseOK ks = true) (hs2 : reindentL (inFnOf anc) ks = true)
+    (h : rCase cfg rec anc pre st ks = .error e) : e = .recursionError := by
+  unfold reindentCaseOK at hs1
+  unfold rCase at h
+  simp only at h
+  split at hs1
+  · rename_i t0 n0 c0rest v0 restCases hg
+    rw [hg] at h
+    simp only [Bool.and_eq_true] at hs1
+    obtain ⟨⟨⟨⟨hn0, hk0⟩, ht0⟩, hbreaks⟩, htags⟩ := hs1
+    simp only [hn0, Bool.not_true, Bool.false_eq_true, if_false] at h
+    -- `_get_offset(tlist[0])`
+    cases ks with
+    | nil => simp at hk0
+    | cons k0 krest =>
+      simp only at hk0
+      obtain ⟨o1, ho1⟩ := rGetOffset_ok cfg st pre (k0 :: krest) 0 k0 rfl hk0
+      rw [ho1] at h
+      simp only at h
+      have hk : ∃ k, (k0 :: krest)[t0 - 1]? = some k ∧ k.hasLeaf = true := by
+        cases hx : (k0 :: krest)[t0 - 1]? with
+        | none => rw [hx] at ht0; simp at ht0
+        | some k => rw [hx] at ht0; exact ⟨k, rfl, by simpa using ht0⟩
+      obtain ⟨k, hk1, hk2⟩ := hk
+      obtain ⟨o2, ho2⟩ := rGetOffset_ok cfg { st with offset := st.offset + o1 } pre (k0 :: krest) (t0 - 1) k hk1 hk2
+      rw [ho2] at h
+      simp only at h
+      have hloop := rCaseLoop_ok cfg { st with offset := st.offset + o1 + o2 } (k0 :: krest) (tagAll (k0 :: krest))
+        restCases (tagAll (k0 :: krest)) (FromOrigT.tagAll _) (fun _ ht => ht) (by
+          intro cv hcv
+          refine ⟨List.all_eq_true.mp hbreaks cv hcv, ?_⟩
+          intro x hx
+          have := List.all_eq_true.mp (List.all_eq_true.mp htags cv hcv) x hx
+          simp only [Bool.and_eq_true] at this
+          exact this.2)
+      obtain ⟨tl', htl', hf'⟩ := hloop
+      rw [htl'] at h
+      simp only at h
+      split at h
+      · rename_i e2 he2
+        simp only [Except.error.injEq] at h
+        rw [← h]
+        exact rDefault_err cfg rec hrec anc pre _ true (k0 :: krest) _ e2 (FromOrigT.untag _ _ hf') hs2 he2
+      · cases h
+  · cases hs1
+
+
+/-! ### `_process_values` -/
+
+theorem nextIdxFrom_spec {α : Type} (p : α → Bool) (l : List α) (s i : Nat) (h : nextIdxFrom p l s = some i) :
+    s ≤ i ∧ ∃ k, l[i]? = some k ∧ p k = true := by
+  unfold nextIdxFrom at h
+  cases hf : (l.drop s).findIdx? p with
+  | none => rw [hf] at h; cases h
+  | some j =>
+    rw [hf] at h
+    simp only [Option.map_some, Option.some.injEq] at h
+    obtain ⟨k, hk, hp⟩ := findIdx?_get p (l.drop s) j hf
+    refine ⟨by omega, k, ?_, hp⟩
+    rw [← h]
+    rw [List.getElem?_drop] at hk
+    rw [Nat.add_comm]; exact hk
+
+theorem getElem?_insertAt_lt {α : Type} (l : List α) (i j : Nat) (x : α) (h : j < i) (k : α) (hk : l[j]? = some k) :
+    (insertAt l i x)[j]? = some k := by
+  unfold insertAt
+  have hjl : j < l.length := by
+    rcases List.getElem?_eq_some_iff.mp hk with ⟨hlt, _⟩; exact hlt
+  rw [List.getElem?_append_left (by rw [List.length_take]; omega), List.getElem?_take_of_lt h]
+  exact hk
+
+theorem getElem?_insertAfterIdx_le {α : Type} (isWs : α → Bool) (l : List α) (idx j : Nat) (x : α) (h : j ≤ idx) (k : α)
+    (hk : l[j]? = some k) : (insertAfterIdx isWs l idx x)[j]? = some k := by
+  unfold insertAfterIdx
+  cases hn : nextIdxFrom (fun a => !isWs a) l (idx + 1) with
+  | none =>
+    simp only
+    have hjl : j < l.length := by
+      rcases List.getElem?_eq_some_iff.mp hk with ⟨hlt, _⟩; exact hlt
+    rw [List.getElem?_append_left hjl]; exact hk
+  | some n =>
+    simp only
+    have := (nextIdxFrom_spec _ l (idx + 1) n hn).1
+    exact getElem?_insertAt_lt l n j x (by omega) k hk
+
+theorem mem_insertAfterIdx {α : Type} (isWs : α → Bool) (l : List α) (idx : Nat) (x y : α)
+    (h : y ∈ insertAfterIdx isWs l idx x) : y ∈ l ∨ y = x := by
+  unfold insertAfterIdx at h
+  split at h
+  · unfold insertAt at h
+    rcases List.mem_append.mp h with h1 | h1
+    · exact Or.inl (List.mem_of_mem_take h1)
+    · rcases List.mem_cons.mp h1 with rfl | h2
+      · exact Or.inr rfl
+      · exact Or.inl (List.mem_of_mem_drop h2)
+  · rcases List.mem_append.mp h with h1 | h1
+    · exact Or.inl h1
+    · simp only [List.mem_singleton] at h1; exact Or.inr h1
+
+theorem mem_insertAt {α : Type} (l : List α) (i : Nat) (x y : α) (h : y ∈ insertAt l i x) : y ∈ l ∨ y = x := by
+  unfold insertAt at h
+  rcases List.mem_append.mp h with h1 | h1
+  · exact Or.inl (List.mem_of_mem_take h1)
+  · rcases List.mem_cons.mp h1 with rfl | h2
+    · exact Or.inr rfl
+    · exact Or.inl (List.mem_of_mem_drop h2)
+
+theorem rValuesStep_ok (cfg : RCfg) (st : RSt) (pre : Text) (fidx : Nat) (ks : List FNode) (tidx : Nat) (kf kt : FNode)
+    (hall : ∀ k ∈ ks, isParenNode k = true → k.hasLeaf = true)
+    (hkf : ks[fidx]? = some kf) (hkfl : kf.hasLeaf = true) (hle : fidx ≤ tidx)
+    (hkt : ks[tidx]? = some kt) (hktl : kt.hasLeaf = true) :
+    ∃ ks1, rValuesStep cfg st pre fidx ks tidx = .ok ks1 ∧
+      (∀ k ∈ ks1, isParenNode k = true → k.hasLeaf = true) ∧ ks1[fidx]? = some kf := by
+  obtain ⟨of, hof⟩ := rGetOffset_ok cfg st pre ks fidx kf hkf hkfl
+  obtain ⟨ot, hot⟩ := rGetOffset_ok cfg st pre ks tidx kt hkt hktl
+  unfold rValuesStep
+  cases hn : nextIdxFrom (·.matchPunct 44) ks (tidx + 1) with
+  | none => exact ⟨ks, rfl, hall, hkf⟩
+  | some pidx =>
+    have hp := (nextIdxFrom_spec _ ks (tidx + 1) pidx hn).1
+    simp only
+    by_cases hc : cfg.commaFirst = true
+    · rw [if_pos hc, hof]
+      refine ⟨_, rfl, ?_, getElem?_insertAt_lt ks pidx fidx _ (by omega) kf hkf⟩
+      intro k hk hpar
+      rcases mem_insertAt ks pidx _ k hk with h1 | h1
+      · exact hall k h1 hpar
+      · rw [h1] at hpar; cases hpar
+    · rw [if_neg hc, hot]
+      refine ⟨_, rfl, ?_, getElem?_insertAfterIdx_le _ ks pidx fidx _ (by omega) kf hkf⟩
+      intro k hk hpar
+      rcases mem_insertAfterIdx _ ks pidx _ k hk with h1 | h1
+      · exact hall k h1 hpar
+      · rw [h1] at hpar; cases hpar
+
+theorem rValuesLoop_ok (cfg : RCfg) (st : RSt) (pre : Text) (fidx : Nat) (kf : FNode) (hkfl : kf.hasLeaf = true) :
+    ∀ (fuel : Nat) (ks : List FNode) (tidx : Nat),
+    (∀ k ∈ ks, isParenNode k = true → k.hasLeaf = true) → ks[fidx]? = some kf → fidx ≤ tidx →
+    (∃ kt, ks[tidx]? = some kt ∧ kt.hasLeaf = true) →
+    ∃ ks', rValuesLoop cfg st pre fidx fuel ks tidx = .ok ks'
+  | 0, ks, tidx, _, _, _, _ => ⟨ks, rfl⟩
+  | fuel+1, ks, tidx, hall, hkf, hle, ht => by
+    obtain ⟨kt, hkt, hktl⟩ := ht
+    obtain ⟨ks1, hs1, hall1, hkf1⟩ := rValuesStep_ok cfg st pre fidx ks tidx kf kt hall hkf hkfl hle hkt hktl
+    unfold rValuesLoop
+    rw [hs1]
+    simp only
+    cases hn : nextIdxFrom isParenNode ks1 (tidx + 1) with
+    | none => exact ⟨ks1, rfl⟩
+    | some t' =>
+      simp only
+      obtain ⟨hge, k', hk', hp'⟩ := nextIdxFrom_spec _ ks1 (tidx + 1) t' hn
+      exact rValuesLoop_ok cfg st pre fidx kf hkfl fuel ks1 t' hall1 hkf1 (by omega)
+        ⟨k', hk', hall1 k' (List.mem_of_getElem? hk') hp'⟩
+
+theorem rValues_ok (cfg : RCfg) (pre : Text) (st : RSt) (ks : List FNode)
+    (hs : (ks.all fun k => !isParenNode k || k.hasLeaf) = true) : ∃ r, rValues cfg pre st ks = .ok r := by
+  unfold rValues
+  simp only
+  have hall : ∀ k ∈ rNl cfg st :: ks, isParenNode k = true → k.hasLeaf = true := by
+    intro k hk hp
+    rcases List.mem_cons.mp hk with rfl | h2
+    · cases hp
+    · have := List.all_eq_true.mp hs k h2
+      simpa [hp] using this
+  cases hn : nextIdxFrom isParenNode (rNl cfg st :: ks) 0 with
+  | none => exact ⟨_, rfl⟩
+  | some fidx =>
+    simp only
+    obtain ⟨_, kf, hkf, hpf⟩ := nextIdxFrom_spec _ _ 0 fidx hn
+    have hkfl := hall kf (List.mem_of_getElem? hkf) hpf
+    obtain ⟨ks', hk'⟩ := rValuesLoop_ok cfg st pre fidx kf hkfl _ _ fidx hall hkf (Nat.le_refl _) ⟨kf, hkf, hkfl⟩
+    rw [hk']
+    exact ⟨_, rfl⟩
+
+/-! ### dispatch and recursion -/
+
+theorem inFnOf_cons_other (c : Cls) (anc : List Cls) (h1 : c ≠ .Function) (h2 : c ≠ .Values) :
+    inFnOf (c :: anc) = inFnOf anc := by
+  simp only [inFnOf, List.contains_cons]
+  have e1 : (Cls.Function == c) = false := by simp [Ne.symm h1]
+  have e2 : (Cls.Values == c) = false := by simp [Ne.symm h2]
+  rw [e1, e2]; simp
+
+theorem inFnOf_cons_function (anc : List Cls) : inFnOf (Cls.Function :: anc) = true := by
+  simp [inFnOf]
+
+theorem rDispatch_err (cfg : RCfg) (rec : RRec) (hrec : RRecSafe rec) (c : Cls) (cv : Text) (anc : List Cls) (pre : Text)
+    (st : RSt) (ks : List FNode) (e : PyErr) (hs : reindent (inFnOf anc) (.grp c cv ks) = true)
+    (h : rDispatch cfg rec c (c :: anc) pre st ks = .error e) : e = .recursionError := by
+  unfold rDispatch at h
+  unfold reindent at hs
+  split at h
+  · simp only at hs
+    exact rWhere_err cfg rec hrec _ pre st ks e (by rw [inFnOf_cons_other _ _ (by decide) (by decide)]; exact hs) h
+  · simp only at hs
+    exact rParenthesis_err cfg rec hrec _ pre st ks e (by rw [inFnOf_cons_other _ _ (by decide) (by decide)]; exact hs) h
+  · simp only at hs
+    exact rFunction_err cfg rec hrec _ pre st ks e (by rw [inFnOf_cons_function]; exact hs) h
+  · simp only [Bool.and_eq_true] at hs
+    exact rIdentifierList_err cfg rec hrec _ pre st ks e (by simpa using hs.1)
+      (by rw [inFnOf_cons_other _ _ (by decide) (by decide)]; exact hs.2) h
+  · simp only [Bool.and_eq_true] at hs
+    exact rCase_err cfg rec hrec _ pre st ks e hs.1 (by rw [inFnOf_cons_other _ _ (by decide) (by decide)]; exact hs.2) h
+  · simp only at hs
+    obtain ⟨r, hr⟩ := rValues_ok cfg pre st ks hs
+    rw [hr] at h; cases h
+  · rename_i h1 h2 h3 h4 h5 h6
+    have hs' : reindentL (inFnOf (c :: anc)) ks = true := by
+      rw [inFnOf_cons_other c anc (fun hc => h3 hc) (fun hc => h6 hc)]
+      cases c <;> first
+        | exact hs
+        | exact absurd rfl h1
+        | exact absurd rfl h2
+        | exact absurd rfl h3
+        | exact absurd rfl h4
+        | exact absurd rfl h5
+        | exact absurd rfl h6
+    exact rDefault_err cfg rec hrec _ pre st true ks ks e (FromOrig.refl ks) hs' h
+
+theorem rProcess_safe (cfg : RCfg) : ∀ (fuel : Nat), RRecSafe (fun a p s n => rProcess cfg fuel a p s n)
+  | fuel, a, p, s, .tok tt v, e, _, h => by cases fuel <;> simp [rProcess] at h
+  | 0, a, p, s, .grp c cv ks, e, _, h => by simp only [rProcess, Except.error.injEq] at h; exact h.symm
+  | fuel+1, a, p, s, .grp c cv ks, e, hs, h => by
+    simp only [rProcess] at h
+    split at h
+    · rename_i e2 he2
+      simp only [Except.error.injEq] at h
+      rw [← h]
+      exact rDispatch_err cfg _ (rProcess_safe cfg fuel) c cv a p s ks e2 hs he2
+    · cases h
+
+/-- C07: on the domain `FilterSafe.reindent false` `ReindentFilter.process` raises nothing but `RecursionError` — every option
+set, filter state, `_last_stmt` and fuel -/
+theorem reindent_total (cfg : RCfg) (fuel : Nat) (st : RSt) (last : Option Text) (n : FNode)
+    (hs : FilterSafe.reindent false n = true) (e : PyErr) (h : reindentProcess cfg fuel st last n = .error e) :
+    e = .recursionError := by
+  unfold reindentProcess at h
+  split at h
+  · rename_i e2 he2
+    simp only [Except.error.injEq] at h
+    rw [← h]
+    exact rProcess_safe cfg fuel [] [] st n e2 (by simpa [inFnOf] using hs) he2
+  · split at h <;> cases h
+
+
+/-! ## a whole stack of statement filters (`for filter_ in self.stmtprocess: filter_.process(stmt)`) -/
+
+/-- the domain of one filter object on the tree it is about to process (`RightMarginFilter.process` always raises) -/
+def StmtObj.safe (n : FNode) : StmtObj → Bool
+  | .stripWs => FilterSafe.stripws n
+  | .reindent .. => FilterSafe.reindent false n
+  | .aligned .. => FilterSafe.aligned n
+  | .rightMargin => false
+  | .spaces => true
+  | .stripComments => true
+
+theorem StmtObj.process_total (fuel : Nat) (n : FNode) (f : StmtObj) (hs : f.safe n = true) (e : PyErr)
+    (h : f.process fuel n = .error e) : e = .recursionError := by
+  cases f with
+  | spaces =>
+    simp only [StmtObj.process] at h
+    cases hp : Sql.spacesAroundOperators fuel n with
+    | error e2 => rw [hp] at h; simp only [Except.map, Except.error.injEq] at h; rw [← h]; exact spaces_total fuel n e2 hp
+    | ok r => rw [hp] at h; simp [Except.map] at h
+  | stripComments =>
+    simp only [StmtObj.process] at h
+    cases hp : Sql.stripComments fuel n with
+    | error e2 => rw [hp] at h; simp only [Except.map, Except.error.injEq] at h; rw [← h]; exact stripComments_total fuel n e2 hp
+    | ok r => rw [hp] at h; simp [Except.map] at h
+  | stripWs =>
+    simp only [StmtObj.process] at h
+    cases hp : Sql.stripWhitespace fuel n with
+    | error e2 =>
+      rw [hp] at h; simp only [Except.map, Except.error.injEq] at h; rw [← h]
+      exact stripWhitespace_total fuel n hs e2 hp
+    | ok r => rw [hp] at h; simp [Except.map] at h
+  | rightMargin => cases hs
+  | reindent cfg st last =>
+    simp only [StmtObj.process] at h
+    cases hp : reindentProcess cfg fuel st last n with
+    | error e2 =>
+      rw [hp] at h; simp only [Except.map, Except.error.injEq] at h; rw [← h]
+      exact reindent_total cfg fuel st last n hs e2 hp
+    | ok r => rw [hp] at h; simp [Except.map] at h
+  | aligned ch st =>
+    simp only [StmtObj.process] at h
+    cases hp : alignedProcess ch fuel st n with
+    | error e2 =>
+      rw [hp] at h; simp only [Except.map, Except.error.injEq] at h; rw [← h]
+      exact aligned_total ch fuel st n hs e2 hp
+    | ok r => rw [hp] at h; simp [Except.map] at h
+
+/-- every stage finds the tree it receives inside its domain -/
+def SafeRun (fuel : Nat) : List StmtObj → FNode → Prop
+  | [], _ => True
+  | f :: fs, n => f.safe n = true ∧ ∀ n' f', f.process fuel n = .ok (n', f') → SafeRun fuel fs n'
+
+/-- C07 for the statement stage of `FilterStack.run`: if every filter of the stack receives a tree of its domain, the stage
+raises nothing but `RecursionError` (which `run` turns into `SQLParseError`) -/
+theorem runStmtObjs_total (fuel : Nat) : ∀ (objs : List StmtObj) (n : FNode) (e : PyErr), SafeRun fuel objs n →
+    runStmtObjs fuel objs n = .error e → e = .recursionError
+  | [], n, e, _, h => by simp [runStmtObjs] at h
+  | f :: fs, n, e, hs, h => by
+    obtain ⟨h1, h2⟩ := hs
+    unfold runStmtObjs at h
+    cases hp : f.process fuel n with
+    | error e2 =>
+      rw [hp] at h
+      simp only [Except.error.injEq] at h
+      rw [← h]; exact StmtObj.process_total fuel n f h1 e2 hp
+    | ok r =>
+      obtain ⟨n', f'⟩ := r
+      rw [hp] at h
+      simp only at h
+      cases hr : runStmtObjs fuel fs n' with
+      | error e2 =>
+        rw [hr] at h
+        simp only [Except.error.injEq] at h
+        rw [← h]; exact runStmtObjs_total fuel fs n' e2 (h2 n' f' hp) hr
+      | ok r2 => rw [hr] at h; cases h
 
 end Sql
